@@ -67,6 +67,8 @@ class LeanBuild:
         """Builds one property module (and what it imports); a failure concerns that property only."""
         lock = open(os.path.join(LEAN_DIR, ".lake", "cv.lock"), "w")
         fcntl.flock(lock, fcntl.LOCK_EX)
+        if not isinstance(module, str):
+            module = " ".join(module)
         try:
             r = sh(f"lake build {module} 2>&1", cwd=LEAN_DIR, timeout=7200)
             return r.returncode == 0, (r.stdout + r.stderr)[-4000:]
@@ -94,10 +96,11 @@ class LeanBuild:
         return hits
 
     @staticmethod
-    def audit(module: str, theorems: list):
+    def audit(module, theorems: list):
         """`#print axioms` for each theorem; returns {thm: (ok, axioms or error)}."""
-        src = f"import {module}\n" + "".join(f"#print axioms {t}\n" for t in theorems)
-        path = os.path.join(LEAN_DIR, ".lake", f"audit_{module.replace('.', '_')}_{os.getpid()}.lean")
+        mods = [module] if isinstance(module, str) else list(module)
+        src = "".join(f"import {m}\n" for m in mods) + "".join(f"#print axioms {t}\n" for t in theorems)
+        path = os.path.join(LEAN_DIR, ".lake", f"audit_{mods[0].replace('.', '_')}_{os.getpid()}.lean")
         with open(path, "w") as f:
             f.write(src)
         try:
